@@ -178,7 +178,7 @@ def rav(x):
 # ---------------------------------------------------------------------------
 # KNeighbors
 # ---------------------------------------------------------------------------
-def knn_case(vd, de, dn, dv, qe, qn, combos, kind, extra=False, rnd=None, reuse=False):
+def knn_case(vd, de, dn, dv, qe, qn, combos, kind, extra=False, rnd=None, reuse=False, prefit=None):
     """one cloud, one query set, several (reduction, k).  With [rnd]: the arguments are passed in random
     containers / dtypes / layouts.  With [reuse]: one instance is first fitted on other data and used, then
     refitted, and predict is called twice - must equal a fresh instance (the model)."""
@@ -196,14 +196,17 @@ def knn_case(vd, de, dn, dv, qe, qn, combos, kind, extra=False, rnd=None, reuse=
     try:
         for red, k in combos:
             g = vd.KNeighbors(k=k, reduction=RED[red]) if red != "RMean" or k % 2 else vd.KNeighbors(k=k)
-            if reuse:       # another, larger, data set first
+            if prefit is not None:   # the SAME instance is first fitted on the data set A = prefit and used
+                g.fit((np.array(prefit[0]), np.array(prefit[1])), np.array(prefit[2]))
+                g.predict(([0.0, 1.0], [0.0, 1.0]))
+            elif reuse:     # another, larger, data set first
                 oe = np.linspace(-50.0, 50.0, np.size(de) + 3)
                 g.fit((oe, oe[::-1] * 0.5), np.arange(oe.size) * 1000.0)
                 g.predict(([0.0, 1.0], [0.0, 1.0]))
             g.fit(coords, pdv)
             out = np.asarray(g.predict(qcoords))
             shape_ok = shape_ok and out.shape == np.shape(qe)
-            if reuse:
+            if reuse or prefit is not None:
                 again = np.asarray(g.predict(qcoords))
                 shape_ok = shape_ok and again.shape == out.shape and bool(np.array_equal(again, out))
             obs.append({"reduction": red, "k": k, "prediction": fl(out.ravel())})
@@ -215,10 +218,16 @@ def knn_case(vd, de, dn, dv, qe, qn, combos, kind, extra=False, rnd=None, reuse=
     tf, tp = tags.get("fit", ["nd"] * 3), tags.get("predict", ["nd"] * 2)
     repro = ("import numpy as np, verde; from harness.c15 import mk\n"
              "c=(mk(%r, %r), mk(%r, %r)); d=mk(%r, %r); q=(mk(%r, %r), mk(%r, %r))\n"
-             "for red, k in %r: print(red, k, verde.KNeighbors(k=k, reduction={'RMean': np.mean, 'RMedian': np.median, 'RMin': np.min, 'RMax': np.max}[red]).fit(c, d).predict(q))"
-             % (fl(de), tf[0], fl(dn), tf[1], fl(dv), tf[2], fl(qe), tp[0], fl(qn), tp[1], [list(c) for c in combos]))
+             "A=%r  # the same instance is fitted on A first (None: fresh instance)\n"
+             "for red, k in %r:\n"
+             "    g = verde.KNeighbors(k=k, reduction={'RMean': np.mean, 'RMedian': np.median, 'RMin': np.min, 'RMax': np.max}[red])\n"
+             "    if A is not None: g.fit((np.array(A[0]), np.array(A[1])), np.array(A[2]))\n"
+             "    print(red, k, g.fit(c, d).predict(q))"
+             % (fl(de), tf[0], fl(dn), tf[1], fl(dv), tf[2], fl(qe), tp[0], fl(qn), tp[1],
+                None if prefit is None else [fl(x) for x in prefit], [list(c) for c in combos]))
     return Case({"fn": "KNeighbors", "combos": [list(c) for c in combos], "easting": fl(de), "northing": fl(dn), "data": fl(dv),
-                 "query_easting": fl(qe), "query_northing": fl(qn), "extra_coords": extra, "presentation": tags, "reuse_instance": reuse},
+                 "query_easting": fl(qe), "query_northing": fl(qn), "extra_coords": extra, "presentation": tags, "reuse_instance": reuse,
+                 "fitted_before_on": None if prefit is None else {"easting": fl(prefit[0]), "northing": fl(prefit[1]), "data": fl(prefit[2])}},
                 {"predictions": obs, "shape_ok_and_repeatable": shape_ok}, term, repro, kind)
 
 
@@ -262,6 +271,58 @@ def gen_knn(vd, rnd, tier, cases):
         for r in reds:
             cases.append(knn_case(vd, de, dn, dv, qe, qn, [(r, n)], "knn-square"))
             cases.append(knn_case(vd, de, dn, dv, qe[:n - 1], qn[:n - 1], [(r, n - 1)], "knn-square"))
+
+
+def gen_refit(vd, rnd, tier, cases):
+    """KNeighbors is stateful: fit the SAME instance on A, then on B; predictions must be those of B alone.
+    B = (i) A's points in another order (data permuted along), (ii) other interior points with A's extreme
+    points kept (same bounding box, same count), (iii) another count / box (control), (iv) A's points in the
+    same order with other data values (control)."""
+    nclouds = 10 if tier == "quick" else 40
+    reds = list(RED)
+    for c in range(nclouds):
+        mode = ["jitter", "uniform", "int", "far"][c % 4]
+        n = rnd.choice([6, 7, 8, 10, 12])
+        ae, an = cloud(rnd, n, mode)
+        av = np.array([rnd.uniform(-100, 100) for _ in range(n)])
+        ext = sorted({int(np.argmin(ae)), int(np.argmax(ae)), int(np.argmin(an)), int(np.argmax(an))})
+        variants = []
+        # (i) a permutation of A (not the identity)
+        perm = list(range(n))
+        while perm == list(range(n)):
+            rnd.shuffle(perm)
+        bv = np.array([rnd.uniform(-100, 100) for _ in range(n)])
+        variants.append(("permuted", ae[perm], an[perm], bv))
+        variants.append(("permuted-samedata", ae[perm], an[perm], av[perm]))
+        # (ii) same extreme points, same count, other interior points
+        w, e_, s_, n_ = ae.min(), ae.max(), an.min(), an.max()
+        be, bn = ae.copy(), an.copy()
+        for i in range(n):
+            if i not in ext:
+                if mode == "int":
+                    be[i] = float(rnd.randint(int(w) + 1, max(int(w) + 1, int(e_) - 1)))
+                    bn[i] = float(rnd.randint(int(s_) + 1, max(int(s_) + 1, int(n_) - 1)))
+                else:
+                    be[i] = w + (e_ - w) * rnd.uniform(0.05, 0.95)
+                    bn[i] = s_ + (n_ - s_) * rnd.uniform(0.05, 0.95)
+        order = list(range(n)); rnd.shuffle(order)
+        variants.append(("same-box", be[order], bn[order], bv))
+        # (iii) control: another count and box
+        ce, cn = cloud(rnd, n + 2, mode)
+        variants.append(("other-count", ce * 1.5, cn * 1.5, np.array([rnd.uniform(-100, 100) for _ in range(n + 2)])))
+        # (iv) control: the same points in the same order, new data
+        variants.append(("same-points", ae.copy(), an.copy(), bv))
+        for name, be_, bn_, bv_ in variants:
+            assert (name in ("other-count",)) or (be_.min(), be_.max(), bn_.min(), bn_.max(), be_.size) == (w, e_, s_, n_, n)
+            qe, qn = queries(rnd, be_, bn_, rnd.randint(3, 8), mode)
+            if mode == "int":
+                qe, qn = np.round(qe), np.round(qn)
+            if c % 2:
+                qe, qn = reshape2(rnd, qe, qn)
+            rs = reds if c % 2 == 0 else [reds[c % 4], reds[(c + 1) % 4]]
+            for r in rs:
+                cases.append(knn_case(vd, be_, bn_, bv_, qe, qn, [(r, k) for k in (1, 2, 3, 5)], "knn-refit-%s" % name,
+                                      rnd=(rnd if c % 3 == 2 else None), prefit=(ae, an, av)))
 
 
 # ---------------------------------------------------------------------------
@@ -539,6 +600,7 @@ def generate(tier, seed):
     rnd = random.Random(seed)
     cases = []
     gen_knn(vd, rnd, tier, cases)
+    gen_refit(vd, rnd, tier, cases)
     gen_meddist(vd, rnd, tier, cases)
     gen_mask(vd, rnd, tier, cases)
     gen_grid(vd, rnd, tier, cases)
